@@ -347,7 +347,7 @@ pub fn disturbance_pass<T: Sync>(
                 Some((i, m)) => {
                     let (clause, case, sig) = to_case(&items[i]);
                     let (_, first_case, first_sig) = to_case(&items[start]);
-                    println!("COLDRESULT fail {}", serde_json::to_string(&json!({"clause": clause, "case": case, "sig": format!("first call {} ; {}", first_sig, sig), "first_call": first_case, "message": format!("single-threaded, the first call of the process was on {}: {}", first_sig, m)})).unwrap());
+                    println!("COLDRESULT fail {}", serde_json::to_string(&json!({"cold_code": code, "clause": clause, "case": case, "sig": format!("first call {} ; {}", first_sig, sig), "first_call": first_case, "message": format!("single-threaded, the first call of the process was on {}: {}", first_sig, m)})).unwrap());
                 }
             }
             std::process::exit(0);
@@ -412,7 +412,7 @@ pub fn disturbance_pass<T: Sync>(
             None => println!("COLDRESULT ok"),
             Some((i, m)) => {
                 let (clause, case, sig) = to_case(&items[i]);
-                println!("COLDRESULT fail {}", serde_json::to_string(&json!({"clause": clause, "case": case, "sig": sig, "message": m})).unwrap());
+                println!("COLDRESULT fail {}", serde_json::to_string(&json!({"cold_code": code, "clause": clause, "case": case, "sig": sig, "message": m})).unwrap());
             }
         }
         std::process::exit(0);
@@ -588,6 +588,27 @@ pub fn repetition_soak<T: Sync>(
 
 /// replay of an `<ID>.after_disturbance` case
 pub fn replay_after_disturbance(case: &Value, check_case: fn(&str, &Value) -> Result<(), String>) -> Result<(), String> {
+    // a cold-start case is replayed the way it was found: the same fresh child process (same build
+    // profile, same code = same stress pass, same first items / offsets); a single-threaded child is
+    // deterministic, a multi-threaded one is tried up to 12 times
+    if let Some(code) = case.get("cold_code").and_then(|c| c.as_u64()) {
+        let id = case["clause"].as_str().unwrap_or("").split('.').next().unwrap_or("").to_string();
+        let prof = case["profile"].as_str().unwrap_or("checked");
+        let root = crate::engine::verif_root();
+        let bin = crate::engine::twin_binary(&root, prof);
+        let tries = if code >= 1000 { 1 } else { 12 };
+        for _ in 0..tries {
+            let out = std::process::Command::new(&bin).arg(&id).arg("--cold").arg(format!("{}", code)).env("VERIF_ROOT", &root).stderr(std::process::Stdio::null()).output().map_err(|e| format!("cannot run {}: {}", bin.display(), e))?;
+            let text = String::from_utf8_lossy(&out.stdout).to_string();
+            for line in text.lines() {
+                if let Some(js) = line.strip_prefix("COLDRESULT fail ") {
+                    let v: Value = serde_json::from_str(js).unwrap_or(Value::Null);
+                    return Err(format!("in a fresh {} child process (cold code {}): {}", prof, code, v["message"].as_str().unwrap_or("")));
+                }
+            }
+        }
+        return Ok(());
+    }
     // also used for `<ID>.concurrent` cases (no disturbance recorded: the single-thread check of the item)
     run_disturbance(case["disturbance"].as_str().unwrap_or(""));
     if let Some(rep) = case.get("repeat") {
